@@ -44,6 +44,10 @@ loop:
 			return err
 		}
 	}
+	// Give the filesystem a chance to finish up, like restoring directory mtimes
+	if f, ok := fs.(interface{ finishUntar() error }); ok {
+		return f.finishUntar()
+	}
 	return nil
 }
 
